@@ -102,10 +102,30 @@ reg("C17", ["c17_endpoints.c"], level="fault_enumeration",
     exhaustive={"quick": "all driver scripts up to length 5 for N = 1..6 on the exact and at-most entry points",
                 "thorough": "all driver scripts up to length 8 for N = 1..6 on the exact and at-most entry points"})
 
+reg("C13", ["c13_lenp.c"],
+    rule="'enc': 6 prefix kinds x payload lengths 1..300 (quick) / 1..1100 (thorough) x 8 encoder entry points x two "
+         "buffer layouts (consumed/unread/extra/free regions with distinct content; chunk lists with empty and "
+         "inactive chunks) x 3 sink styles (chunk, octet, chunk accepting <= 3 octets per call); 'bounds': lengths "
+         "around 127/128, 255/256, 16383/16384, 65535/65536; 'huge': 2^32-2..2^32+1, SSIZE_MAX-20..SSIZE_MAX+1, "
+         "UINT64_MAX into a counting sink; 'dec': 3 decoder entry points x destination capacity len-1/len/len+1 x "
+         "octet/chunk sources with random fragmentation x 1..3 frames back to back; 'frag': every fragmentation "
+         "(2^(L-1) cut masks) of short two-frame streams. A signature is (generator, kind, length[, entry]); "
+         "evaluations counts encoder/decoder cases compared with the reference prefix codec.",
+    exhaustive={"quick": "all fragmentations of two-frame streams of total length <= 12",
+                "thorough": "all fragmentations of two-frame streams of total length <= 12"})
+
 SAN_NOTE = ("Trusted: gcc 12 ASan/UBSan runtime, the harness' reference model, the fork-per-unit runner. "
             "Assumes little-endian x86-64; decides only the executions listed in the evidence file.")
 
 MANIFEST_TEXT = {
+    "C13": dict(
+        technique="runtime monitoring: generated encoder/decoder cases against a reference prefix codec, fragmenting sources, partial sinks, exact-size poisoned buffers under ASan/UBSan",
+        text="Every encoder entry point is run for every kind and length up to the bound and at each kind's maximum "
+             "+-1 with buffers whose consumed, unread and free regions hold distinct content, and its output is "
+             "compared octet for octet with a reference prefix encoder followed by exactly the designated octets; "
+             "decoders are run with destinations of capacity len-1/len/len+1 in a poisoned arena and with every "
+             "fragmentation of short streams.",
+        note=SAN_NOTE),
     "C17": dict(
         technique="runtime monitoring: exhaustive fault-script enumeration with scripted, logging source/sink drivers; outcome oracle + in-driver pointer/count assertions + call-count progress bound; ASan/UBSan",
         text="Every short behaviour script of partial transfers, zero-length returns, EINTR/EAGAIN and hard errors is "
